@@ -10,6 +10,7 @@ import Q1t.Proofs.TableauFinite
 import Q1t.Proofs.TableauWitness
 import Q1t.Proofs.TableauContractQ8
 import Q1t.Proofs.TableauDetShape
+import Q1t.Proofs.TableauProgress
 /-!
 # C03 — stabilizer tableau semantics equal state-vector semantics
 
@@ -316,6 +317,28 @@ theorem tableau_contract_partial (n : Nat)
       Q1t.Gen.phaseTable (Q1t.Proofs.TabG.conjOfT (A := Empty) Q1t.Gen.conjTable Q1t.Gen.conjNoArityCheck)
       (Q1t.Proofs.TabG.validT (A := Empty) n Q1t.Gen.conjTable) :=
   Q1t.Proofs.TabG.tableauOK_generated n hD
+
+/-- **C01's bundle `SimGF.StabHyps` (multinomial law on the stabilizer backend) — partial.**
+Full statement: `StabHyps Q8 Empty nzQ8 (Reach …) n half phaseTable conjOf valid` unconditionally.
+Proved for all `n`, for the generated tables over ℚ(ζ₈), with `St := Reach`: `tab` (= `tableau_contract_partial`),
+`arity`, `iso`, and the **progress** fields `gateRuns` (`apply_gate` returns on every reachable pair for every valid
+claiming term: every row is conjugated, `normalize` does not trip the assertion of `multiply_row` nor leave the
+index range), `collapseRuns` (after `Random`), `measRuns`, and `randHalf` (‖P₀ψ‖² = ‖P₁ψ‖²).
+Remaining hypotheses: `DetShapeHolds` (needed by `tab.det`, `tab.reset`, and by `measRuns`: the `.unwrap()` in the
+deterministic branch of `measure` needs a row with exactly `Z` on the qubit when no row has X/Y there — the row
+`Z_q` of `DetShape`); `hpos` — positivity of the squared norm over ℚ(ζ₈) (a property of the amplitude type, not of
+the tableau code; not proved here). -/
+theorem stabHyps_partial (n : Nat)
+    (hD : Q1t.Proofs.TabG.DetShapeHolds (α := Q8) (A := Empty) n Q1t.Gen.phaseTable Q1t.Gen.conjTable
+      Q1t.Gen.conjNoArityCheck)
+    (hpos : ∀ v : List Q8, Q1t.Sim.normSqSum v = 0 → ∀ a ∈ v, a = 0) (half : Q8) (hhalf : half + half = 1) :
+    Q1t.Sim.SimGF.StabHyps Q8 Empty Q1t.Sim.Demo.nzQ8
+      (Q1t.Proofs.TabG.Reach (A := Empty) Q8 n Q1t.Gen.phaseTable Q1t.Gen.conjTable Q1t.Gen.conjNoArityCheck) n half
+      Q1t.Gen.phaseTable (Q1t.Proofs.TabG.conjOfT (A := Empty) Q1t.Gen.conjTable Q1t.Gen.conjNoArityCheck)
+      (Q1t.Proofs.TabG.validT (A := Empty) n Q1t.Gen.conjTable) :=
+  Q1t.Proofs.TabG.stabHyps n Q1t.Gen.phaseTable Q1t.Gen.conjTable Q1t.Gen.conjNoArityCheck Q8.lawful
+    Q1t.Sim.Demo.lawfulSimQ8 phaseTable_correct Q1t.Proofs.ConjQ8.prims_exact_Q8
+    Q1t.Proofs.TabG.tableFacts_generated hD (by decide) hpos half hhalf
 
 /-! ## non-vacuity -/
 
